@@ -168,6 +168,7 @@ func historyCase(t *testing.T, run *vt.Run, c vt.CaseID, rng *rand.Rand) {
 		waits := []time.Duration{0, 5 * time.Second, 10 * time.Second, 7 * time.Second}
 		dels := []time.Duration{0, 20 * time.Second, 60 * time.Second, 15 * time.Second}
 		multi := rng.IntN(3) == 0
+		raced := 0
 		for i := 0; i < nl; i++ {
 			lc := lcfg{Name: fmt.Sprintf("L%d", i), Partition: int32(rng.IntN(3)), Multi: multi, WaitCount: rng.IntN(3), WaitDur: waits[rng.IntN(len(waits))], DeleteAfter: dels[rng.IntN(len(dels))], CreateOnUp: rng.IntN(5) != 0, RemoveOwner: rng.IntN(2) == 0}
 			cfgs = append(cfgs, lc)
@@ -175,7 +176,7 @@ func historyCase(t *testing.T, run *vt.Run, c vt.CaseID, rng *rand.Rand) {
 				PartitionID: lc.Partition, InstanceID: "inst-" + lc.Name, MultiPartitionOwnership: lc.Multi,
 				WaitOwnersCountOnPending: lc.WaitCount, WaitOwnersDurationOnPending: lc.WaitDur,
 				DeleteInactivePartitionAfterDuration: lc.DeleteAfter, PollingInterval: 5 * time.Second,
-			}, "verif", pkey, st.Client(lc.Name), log.NewNopLogger(), nil)
+			}, "verif", pkey, lcHandle(st, lc, rng.IntN(3) == 0, &raced), log.NewNopLogger(), nil)
 			l.SetCreatePartitionOnStartup(lc.CreateOnUp)
 			l.SetRemoveOwnerOnShutdown(lc.RemoveOwner)
 			lcs = append(lcs, l)
@@ -346,6 +347,7 @@ func historyCase(t *testing.T, run *vt.Run, c vt.CaseID, rng *rand.Rand) {
 			}
 			prev = cur
 		}
+		run.Count("startup_cas_raced_by_another_creator", int64(raced))
 		run.EvalH(vt.Hash64(strings.Join(acts, ";")), edges > 0)
 		if edges > 1 && run.WantSample() {
 			run.Sample(map[string]any{"kind": "history", "lifecyclers": cfgs, "actions": acts, "versions_written": len(vers)})
@@ -356,6 +358,36 @@ func historyCase(t *testing.T, run *vt.Run, c vt.CaseID, rng *rand.Rand) {
 var bubbleT0 = time.Date(2000, 1, 1, 0, 0, 0, 0, time.UTC)
 
 func t0() time.Time { return bubbleT0 }
+
+// lcHandle returns the store client of a lifecycler. With race set, another writer ("racer": a second owner that
+// has just created the partition and seen it promoted) commits between the read and the write of the lifecycler's
+// first CAS attempt, so the lifecycler's function runs again on a ring in which its partition already exists
+// as ACTIVE.
+func lcHandle(st *recstore.Store, lc lcfg, race bool, raced *int) *recstore.Handle {
+	h := st.Client(lc.Name)
+	if !race {
+		return h
+	}
+	h.SetFaults(recstore.Faults{BeforeCommit: func(n int) {
+		if n != 1 {
+			return
+		}
+		_ = st.Client("racer").CAS(context.Background(), pkey, func(in interface{}) (interface{}, bool, error) {
+			d := ring.GetOrCreatePartitionRingDesc(in)
+			if d.HasPartition(lc.Partition) {
+				return nil, false, nil
+			}
+			now := time.Now()
+			d.AddPartition(lc.Partition, ring.PartitionActive, now)
+			if lc.WaitCount%2 == 0 {
+				d.AddOrUpdateOwner("inst-racer", ring.OwnerActive, lc.Partition, now)
+			}
+			*raced++
+			return d, true, nil
+		})
+	}})
+	return h
+}
 
 // ---- replication sets -------------------------------------------------------------
 
